@@ -258,13 +258,19 @@ def is_builtin_structure(val):
     )
 
 
-def get_loop_ancestor(node):
+def get_loop_ancestor(node, accesses=()):
+    # the nearest enclosing loop; an outer loop instead as long as one of the
+    # accesses of the same value lies outside (the value has to survive every
+    # iteration of that outer loop as well)
+    loop = node
     for par in node.node_ancestors():
         if isinstance(par, nodes.FunctionDef):
-            return node
+            break
         if isinstance(par, (nodes.For, nodes.While)):
-            return par
-    return node
+            loop = par
+            if all(par.parent_of(a) for a in accesses):
+                break
+    return loop
 
 
 def is_constant(node, data):
